@@ -283,7 +283,7 @@ def _type_check_local_reference(expression, ir, errors):
     if ir_util.field_is_virtual(field):
         _type_check_expression(
             field.read_transform,
-            expression.field_reference.path[0].canonical_name.module_file,
+            expression.field_reference.path[-1].canonical_name.module_file,
             ir,
             errors,
         )
